@@ -26,6 +26,10 @@ func NewIntegerFromString(x string) (v Integer) {
 	if d.Sign() < 0 {
 		panic(x)
 	}
+	if d.Sign() == 0 {
+		// zero has no scale: "0e2147483647" must not reach the exponent arithmetic below
+		return
+	}
 	s := d.Mul(decimal.New(1, Precision)).Floor().String()
 	v.i.SetString(s, 10)
 	return
